@@ -1,0 +1,27 @@
+// Copyright © 2022-2026 Obol Labs Inc. Licensed under the terms of a Business Source License 1.1
+
+//go:build verif
+
+// Verification contracts (comments only; read by /verif/govc, never compiled into charon).
+package signing
+
+//@ pure tbls.Verify
+
+//@ func GetDomain
+//@ props C09 C10
+//@ pure
+//@ callreq eth2Cl.GenesisDomain: name == DomainApplicationBuilder && a2 == domainTyped
+//@ callreq eth2Cl.Domain: name != DomainApplicationBuilder && a2 == domainTyped && a3 == epoch
+//@ ensures r1 == nil ==> ncalls(eth2Cl.GenesisDomain) + ncalls(eth2Cl.Domain) == 1
+
+//@ func GetDataRoot
+//@ props C09 C10
+//@ pure
+//@ ensures r1 == nil ==> res(1, GetDomain(ctx, eth2Cl, name, epoch)) == nil
+
+//@ func Verify
+//@ props C09 C10 C01
+//@ pure
+//@ ensures result == nil ==> res(1, GetDataRoot(ctx, eth2Cl, domain, epoch, sigRoot)) == nil && signature != eth2p0.BLSSignature{}
+//@ ensures result == nil ==> tbls.Verify(pubkey, res(0, GetDataRoot(ctx, eth2Cl, domain, epoch, sigRoot))[:], tbls.Signature(signature)) == nil
+//@ canary result != nil
